@@ -89,7 +89,7 @@ class SchedStream(Stream):
                     c2 = json.loads(json.dumps(c))
                     del c2["sections"][si]["lines"][li]
                     yield c2
-        if c["fcp"] > 1:
+        if c["fcp"] > max(1, c.get("startcp", 1)):
             c2 = json.loads(json.dumps(c))
             c2["fcp"] -= 1
             yield c2
